@@ -66,7 +66,8 @@ def replaceWithCapturesInContext (capsAt : Nat → Option Caps) (names : List (B
     else
       let dst1 := st.dst ++ slice bytes st.lastMatch m.s
       let exp := interpolate (envOf bytes names c) tmpl
-      ({ lastMatch := m.e, dst := dst1 ++ exp,
+      -- `last_match = min(m.end(), range.end)`: a match may reach beyond the range in multi-line mode
+      ({ lastMatch := min m.e re, dst := dst1 ++ exp,
          spans := st.spans ++ [⟨dst1.length, dst1.length + exp.length⟩] }, true)
   let st := capturesIterAt capsAt bytes.length rs step ⟨rs, [], []⟩
   let end_ := min bytes.length re
